@@ -574,13 +574,14 @@ def get_and_reserve_spendable_utxos(transaction: sqlite3.Connection, accounts: L
     multiplier = base_multiplier
     gap_count = 0
 
-    while reserved_dewies < amount_to_reserve and gap_count < 5 and floor * multiplier < SQLITE_MAX_INTEGER:
+    while reserved_dewies < amount_to_reserve and gap_count < 5 and floor < SQLITE_MAX_INTEGER:
         previous_reserved_dewies = reserved_dewies
+        ceiling = min(floor * multiplier, SQLITE_MAX_INTEGER)  # clamp instead of skipping the top range
         reserved_dewies = _get_spendable_utxos(
             transaction, accounts, decoded_transactions, txs, reserved, amount_to_reserve, reserved_dewies,
-            floor, floor * multiplier, fee_per_byte
+            floor, ceiling, fee_per_byte
         )
-        floor *= multiplier
+        floor = ceiling
         if previous_reserved_dewies == reserved_dewies:
             gap_count += 1
             multiplier **= 2
